@@ -38,6 +38,14 @@ CHECKS['C18'] = (
     'Histories have one shape at all times, no variable is called "time", no None values; query paths do not descend through a leaf value; '
     'int magnitudes may read back as equal floats.')
 
+CHECKS['C08'] = (
+    'Hypothesis-generated variables/updaters/batches vs. a reference fold of the documented updater algebra (differential), three delivery routes',
+    'Generated search over every registered updater plus a user function, values in each updater domain, batches delivered as '
+    'separate updates, _multi_update lists or an Engine tick; final values are compared with a left-to-right reference fold, '
+    'unmentioned variables by identity, the update object with its pre-call copy, unit variables by units and magnitude.',
+    'Trusts vv/ref/updaters.py. merge only on flat dicts; magnitudes compared at rel 1e-12; dict_value update-unmodified clause '
+    'only when one update hits the variable.')
+
 NOT_YET = 'check not built yet in this session (planned, see DESIGN.md section 8)'
 
 
